@@ -316,7 +316,7 @@ for n in (0,1,2,63,64,65):
 c06.append(job("many-64-nokey","rule","VH_EncodeMany",["C06/"],{"filters":64,"key":0},Q,bounds="64 filters, no key"))
 c06.append(job("compare","rule","VH_EncodeCompare",["C06/"],{},Q,bounds="-C a<op>b for all 25 UAPI AUDIT_COMPARE_* pairs in both orders x {=, !=} (exhaustive), plus rejected pairs and operators"))
 c06.append(job("build-history","rule","VH_BuildHistory",["C06/"],{},Q,expect=["C06/other-rule-rejected"],bounds="3 rules x 10 other rules (9 rejected at different error exits, after part of the rule was taken in; 1 accepted): Build(rule), Build(other), Build(rule) gives the same bytes"))
-c06.append(job("watch","rule","VH_EncodeWatch",["C06/"],{},Q,bounds="file watches on a file, a directory and a non-existing path with a symbolic leaf (Stat stub), all 16 permission subsets, with/without key"))
+c06.append(job("watch","rule","VH_EncodeWatch",["C06/"],{},Q,bounds="file watches on a file, a directory and a non-existing path with a symbolic leaf (Stat stub), every list of 0..3 permissions (any order, repeats allowed), with/without key"))
 C["C06"]={"jobs":c06,"assumptions":RULE_ASSUME+["UAPI constants and struct offsets come from /usr/include/linux/audit.h of this image via a compiled C program (uapi/extract.py); the field-name -> macro map is transcribed from audit-userspace's fieldtab.h",
    "the Rule struct is built directly (flag text parsing is C07/C14's subject)","the top 16 bits of the last mask word are not constrained for the all-syscalls pattern (kernel syscall-class bits)"],
    "outside":["strings longer than 3 symbolic bytes (length limits are checked by C13's concrete long strings)","user/group names other than root"]}
@@ -406,6 +406,9 @@ for i,f in enumerate(RTF):
        bounds=f"syscall rule with one {f} filter (every admissible operator, 4 symbolic decimal digits / names / strings of 1..3 plain bytes) x action x {{no -S, -S open|execve|all, -S 0|59|1000|2047}} x 0..1 key"))
     c07.append(job("field10-"+f,"rule/flags","VH_RoundTrip",["C07/"],{"shape":0,"field":i,"list":lst,"digits":10,"smalldigits":4,"strmax":2,"maxkeys":1,"sysforms":3},T,expect=["C07/accepted-by-build"],
        bounds=f"as field-{f} with 10 symbolic digits"))
+for f in ("subj_user","obj_type","subj_clr"):
+    c07.append(job("field-"+f+"-anyfirst","rule/flags","VH_RoundTrip",["C07/"],{"shape":0,"field":RTF.index(f),"list":0,"digits":3,"smalldigits":3,"strmax":1,"maxkeys":0,"sysforms":1,"anyfirst":1},Q,expect=["C07/accepted-by-build"],
+       bounds=f"syscall rule with one {f} filter whose value is 1..2 plain bytes with any first byte (also '=', '!', '<', '>', '&', '-'), every operator Build admits"))
 for (a,b) in [("uid","arch"),("arch","uid"),("path","perm"),("perm","path"),("dir","perm"),("exe","msgtype")]:
     if b=="msgtype": continue
     c07.append(job(f"two-{a}-{b}","rule/flags","VH_RoundTrip",["C07/"],{"shape":0,"field":RTF.index(a),"second":RTF.index(b),"list":0,"digits":3,"strmax":1,"maxkeys":1,"sysforms":2,"oneop":1,"realpath":1},Q,expect=["C07/accepted-by-build"],
